@@ -194,6 +194,13 @@ def family_c08(prop, fail, unit_res, repo, verif, build):
 FAMILIES["C08"] = family_c08
 
 
+def family_c11(prop, fail, unit_res, repo, verif, build):
+    return _core_replay("c11_family", lambda scratch: [scratch], repo, verif, build, timeout=3000)
+
+
+FAMILIES["C11"] = family_c11
+
+
 def family_c13(prop, fail, unit_res, repo, verif, build):
     return _core_replay("c13_family", lambda scratch: [scratch], repo, verif, build)
 
